@@ -114,6 +114,38 @@ def cancelOK (cancelAt : Option (Nat × Dur)) (r : Run) : Bool :=
   | some ca, .cancelled => cancelledOK ca 0 r.waits
   | some ca, _ => completedOK ca 0 r.waits
 
+/-- every requested wait is the server's throttle or at most the largest value the backoff can produce
+(`1.5·max(InitialInterval, MaxInterval) + 1`): nothing else ever lengthens a wait -/
+def waitsBounded (cfg : Config) (outs : List Outcome) (r : Run) : Bool :=
+  (r.waits.zip outs).all (fun (w, o) => decide (w ≤ max (throttleOf o) (maxBackoff cfg)))
+
+/-- "never blocks beyond that", quantitatively, with `MaxElapsedTime = M ≠ 0`: a wait is only begun while
+`elapsed + throttle ≤ M`, and it ends — i.e. the next attempt starts — at model time
+`≤ M + max 0 (maxBackoff − throttle)`. (The code compares only the throttle with `M`, not the backoff: a wait may
+run past `M` by at most one backoff draw.) -/
+def waitsEndBy (cfg : Config) (atts : List Attempt) (r : Run) : Bool :=
+  cfg.maxElapsed == 0 ||
+  (r.waits.zip atts).all (fun (w, a) =>
+    decide (a.e2 + throttleOf a.out ≤ cfg.maxElapsed) &&
+    decide (a.e2 + w ≤ cfg.maxElapsed + max 0 (maxBackoff cfg - throttleOf a.out)))
+
+/-- `MaxElapsedTime = 0` ("retry until the context is done"): the call never ends for lack of time -/
+def unlimitedOK (cfg : Config) (r : Run) : Bool :=
+  cfg.maxElapsed != 0 || (r.result != .maxElapsed && r.result != .wouldElapse)
+
+/-- number of attempts, on a clock on which waits really take their time: with `0 < M`,
+`0 < InitialInterval/2`, `InitialInterval ≤ MaxInterval` and no negative throttle, every wait lasts at least
+`InitialInterval/2` and is begun no later than `M`, so `(attempts − 2) · (InitialInterval/2) ≤ M`,
+i.e. `attempts ≤ M / (InitialInterval·(1 − RandomizationFactor)) + 2` -/
+def attemptsBounded (cfg : Config) (outs : List Outcome) (r : Run) : Bool :=
+  !(decide (0 < cfg.maxElapsed) && decide (0 < minBackoff cfg) && decide (cfg.initial ≤ cfg.maxInterval) &&
+    outs.all (fun o => decide (0 ≤ throttleOf o))) ||
+  decide (((r.attempts : Int) - 2) * minBackoff cfg ≤ cfg.maxElapsed)
+
+/-- the time clauses that hold whatever the clock does -/
+def timeOK (cfg : Config) (atts : List Attempt) (r : Run) : Bool :=
+  waitsBounded cfg (atts.map (·.out)) r && waitsEndBy cfg atts r && unlimitedOK cfg r
+
 /-- `Enabled = false`: exactly one attempt, its result returned unchanged -/
 def disabledSingle (outs : List Outcome) (r : Run) : Bool :=
   r.attempts == 1 && r.waits.isEmpty && r.result == .returned (outs.headD .fatal)
